@@ -196,9 +196,10 @@ def finish(ctx):
     if errors:
         for e in errors:
             print("ANALYSIS-ERROR: property=%s %s" % (ctx.pid, e))
-        return 2
     if viols:
-        return 1
+        return 1        # a decided violation is reported as such even if another rule lost its anchors
+    if errors:
+        return 2
     print("OK property=%s (%d instances, %.1fs)" % (ctx.pid, len(ctx.results), wall))
     return 0
 
